@@ -9,8 +9,8 @@
 From Coq Require Import String List Bool Arith.
 From J5V.lib Require Import Outcome.
 From J5V.gen Require SetExtGen PanicGen.
-From J5V.model Require Import CmpbFields.
-From J5V.proofs Require Import CmpbFieldsProofs CmpbPanicProofs.
+From J5V.model Require Import CmpbFields CmpbDecls.
+From J5V.proofs Require Import CmpbFieldsProofs CmpbPanicProofs CmpbDeclsProofs.
 Import ListNotations.
 Local Open Scope string_scope.
 
@@ -70,7 +70,7 @@ Proof. exact iso_errors_nonempty. Qed.
 Print Assumptions C07_errors_nonempty.
 
 (* ---- (ii) the call-site table, recomputed over the regenerated list on every run *)
-Theorem C07_sites_agree : map site_key model_sites = map gen_key SetExtGen.sites.
+Theorem C07_sites_agree : sites_same_set = true.
 Proof. exact sites_agree. Qed.
 Print Assumptions C07_sites_agree.
 
@@ -95,8 +95,37 @@ Theorem C07_import_paths_ok :
 Proof. exact import_paths_ok. Qed.
 Print Assumptions C07_import_paths_ok.
 
+(* ---- declarations that set extensions outside buildField, for ANY number of options / methods
+   (induction over the lists, model/CmpbDecls.v) *)
+(* a top-level enum with or without info definitions and with info values on any of its options
+   converts, never panics, and links in a file with nothing else (the repaired finding 21) *)
+Theorem C07_enum_accepted : forall e, verdict_d (compile_enum e) = VOk.
+Proof. exact enum_accepted. Qed.
+Print Assumptions C07_enum_accepted.
+
+(* services: full statement *)
+Definition C07_service_full_statement : Prop :=
+  forall sv, service_in_language sv = true -> verdict_d (compile_service sv) = VOk.
+(* refuted: a method with a list request panics in SetExtension (recorded finding) *)
+Theorem C07_service_refuted : ~ C07_service_full_statement.
+Proof.
+  intro H. destruct service_listrequest_panics as [Hl Hp]. rewrite (H _ Hl) in Hp. discriminate.
+Qed.
+Print Assumptions C07_service_refuted.
+(* partial: without list requests a service never panics and always links (whatever its methods:
+   missing request, bad verb, unknown path parameter), and is accepted when in the language;
+   missing for the full statement: methods with a list request *)
+Theorem C07_service_total_links_partial : forall sv, no_list_request (sv_methods sv) ->
+  verdict_d (compile_service sv) <> VPanic /\ verdict_d (compile_service sv) <> VLinkErr.
+Proof. exact service_total_links. Qed.
+Print Assumptions C07_service_total_links_partial.
+Theorem C07_service_accepted_partial : forall sv,
+  service_in_language sv = true -> no_list_request (sv_methods sv) -> verdict_d (compile_service sv) = VOk.
+Proof. exact service_accepted. Qed.
+Print Assumptions C07_service_accepted_partial.
+
 (* every explicit panic( call in the anchored files is a model Panic site or a reviewed printer-side site *)
-Theorem C07_panic_sites_agree : map fst model_panic_sites = PanicGen.sites.
+Theorem C07_panic_sites_agree : panic_sites_same_set = true.
 Proof. exact panic_sites_agree. Qed.
 Print Assumptions C07_panic_sites_agree.
 
@@ -113,6 +142,15 @@ Example C07_example_date_rules :
   = mkObs VOk [IJ5Ext; IJ5Date] [XField] (Some (mkDesc PMessage NDate false false))
   /\ field_cover (mkProp false (Plain (TDate true false)) false false) = true.
 Proof. vm_compute. split; reflexivity. Qed.
+Example C07_example_service :
+  let sv := mkService [mkMethod true HPost true true true false; mkMethod true HGet false true false false] true in
+  service_in_language sv = true /\ no_list_request (sv_methods sv)
+  /\ d_imps (compile_service sv) = [IGApiAnnotations; IGApiHttpBody; IJ5Ext]
+  /\ d_exts (compile_service sv) = [XHttp; XMethod; XService; XMessage].
+Proof.
+  cbv zeta. split; [reflexivity|]. split; [|split; vm_compute; reflexivity].
+  intros m [<-|[<-|[]]]; reflexivity.
+Qed.
 Example C07_example_rejected :
   o_verdict (compile_iso (mkProp false (Plain (TObject RNotFound false false)) false false)) = VConvErr
   /\ iso_nerr (mkProp false (Plain (TObject RNotFound false false)) false false) = 1.
